@@ -64,6 +64,7 @@ class Ctx:
         self.repo = None
         self.known = [k for k in load_known() if k.get("property") == prop]
         self.counters = {}
+        self.examined = set()      # new helpers a rule has looked into itself (its verdict is not hidden behind them)
 
     # ------------------------------------------------------------- recording
     def rule(self, rid, doc):
@@ -76,7 +77,7 @@ class Ctx:
         # the function still calls helpers that are new to the rules and could not be inlined: whatever looks
         # wrong or missing here may be done there, so no verdict is drawn from it
         from .loader import opaque_at
-        hidden = opaque_at(where)
+        hidden = [h for h in opaque_at(where) if h not in self.examined]
         if hidden:
             self.inconclusive(rule, construct, where, "%s [not decided: the function calls %s, new to the rules and not inlinable]"
                               % (detail, ", ".join(hidden)), key)
